@@ -261,13 +261,21 @@ def build(tier="quick", seed=0):
                     o["mode"] = mode
                 rc, out_text, out_bin = run_main(argv_of(o, paths, uri))
                 f = it.vfs.get(uri.split("://")[-1]) if uri else out_text
-                outs[label] = (decode_output(kind, f), reference(intact, opts))
+                ref = reference(intact, opts)
+                outs[label] = (decode_output(kind, f), ref)
+                if kind == "csv":  # a header row per run of records of one type - a header that is repeated inside a run is a data row to every CSV parser
+                    runs = sum(1 for i_, r_ in enumerate(ref) if i_ == 0 or (r_[0], r_[1]) != (ref[i_ - 1][0], ref[i_ - 1][1]))
+                    outs[label + " (header rows)"] = (sum(1 for row in f.content() if isinstance(row, CsvRow) and row.header), runs)
             return outs
         return th
 
     def judge_writers(p):
         conj = []
         for label, (got, want) in p.value.items():
+            if label.endswith("(header rows)"):
+                if got != want:
+                    return False, f"{label}: {got} header rows for {want} run(s) of records of one type"
+                continue
             g, why = compare(got, want, strict_types=False)
             if g is False:
                 return False, f"{label}: {why}"
@@ -279,6 +287,22 @@ def build(tier="quick", seed=0):
         name = f"C16.writers[{opts or 'no options'}: stream / jsonfile / csvfile / -m jsonlines / -m csv]"
         pack.add(Obligation(name, lambda tier, name=name, opts=opts: prove_paths(name, th_writers(opts), judge_writers, lambda m_, p: {}, allow_raise=("UnicodeEncodeError", "error")), replay=lambda w, opts=opts: {"call": "c16_writers", "args": {"opts": opts}}, functions=FU,
                             mode="five writers / modes, decoded from what each wrote (stdout modelled for the modes)"))
+
+    # the same comparison on real files with the real csv / json modules (bounded stand-in: three option sets x six writers / modes)
+    def run_writers_native(tier):
+        bad, n = None, 0
+        for opts in ({}, {"selector": "r.n >= 1", "skip": 1}, {"fields": ["n", "s"], "exclude": ["s"]}):
+            res = native_replay({"call": "c16_writers", "args": {"opts": opts}}, timeout=600)
+            n += 1
+            if res.get("violates") or "error" in res:
+                bad = (opts, res)
+                break
+        r = Result("C16.writers.native", "refuted" if bad and bad[1].get("violates") else ("proved" if not bad else "error"), str((bad[1].get("detail") or bad[1].get("error")) if bad else "")[:300], paths=n)
+        if bad:
+            r.native, r.confirmed, r.request, r.witness = bad[1], bool(bad[1].get("violates")), {"call": "c16_writers", "args": {"opts": bad[0]}}, {"opts": bad[0]}
+        return r
+
+    pack.add(Obligation("C16.writers.native", run_writers_native, kind="bounded", note="native run of rdump.main with every writer / mode on real files: the records written (and, for CSV, one header row per run of one type) against the reference pipeline; bound: 3 option sets x 6 writers / modes", functions=FU))
 
     # ------------------------------------------------------------------ every output mode hands the projection options to its writer
     def _spy(*a, **k):  # placeholder that stands for flow.record.RecordWriter inside rdump (modelled below)
